@@ -275,6 +275,24 @@ fn hazards() -> Vec<Case> {
         // run length beyond the budget (excluded by the budget rule, must be counted as skipped)
         add(&format!("run-length-u32max-c{comp}"), &b0, &[(Field::Root(4), (1 << 32) - 1)]);
     }
+    // metadata nested far deeper than any stack allows (valid JSON prefix; arrays are not even objects)
+    for comp in [1u8, 2, 4] {
+        for (name, open, close, depth) in [("array", "[", "]", 200_000usize), ("object", "{\"a\":", "}", 100_000), ("array-unclosed", "[", "", 300_000)] {
+            let mut m = String::with_capacity(depth * (open.len() + close.len()) + 2);
+            for _ in 0..depth {
+                m.push_str(open);
+            }
+            if name == "object" {
+                m.push('1');
+            }
+            for _ in 0..depth {
+                m.push_str(close);
+            }
+            let mut st = Structured::base(0, comp);
+            st.meta = m.into_bytes();
+            add(&format!("metadata-nested-{name}-{depth}-c{comp}"), &st, &[]);
+        }
+    }
     // leaf pointer cycles and chains (uncompressed so that lengths can be made self-consistent)
     // self-pointing leaf: leaf = [n=1, delta, run=0, len=5, off=1] is 5 bytes long and points at itself
     let selfleaf = ser(&[1, 0, 0, 5, 1]);
